@@ -1042,7 +1042,11 @@ impl TryFrom<&mut Peekable<Lexer>> for ParserNode {
                             // not found
                             let mut values = Vec::new();
                             loop {
-                                let next = lex.peek_any()?;
+                                // The end of the file also ends the list of values
+                                let next = match lex.peek_any() {
+                                    Err(LexError::UnexpectedEOF) => break,
+                                    next => next?,
+                                };
                                 if let TokenType::Newline = next.token_type() {
                                     // consume newline
                                     lex.get_any()?;
